@@ -1002,8 +1002,8 @@ func (c *Ctx) phaseRoot(fn *ssa.Function) *ssa.Function {
 	return fn
 }
 
-// regionOf: root, its function literals, and the helpers it calls statically whose phaseRoot is
-// root (two levels).
+// regionOf: root, its function literals, and the unexported helpers called (statically, from one
+// call site only) by a function of the region (two levels).
 func (c *Ctx) regionOf(root *ssa.Function) map[*ssa.Function]bool {
 	out := map[*ssa.Function]bool{root: true}
 	var add func(fn *ssa.Function, d int)
@@ -1026,7 +1026,7 @@ func (c *Ctx) regionOf(root *ssa.Function) map[*ssa.Function]bool {
 			if g == nil || out[g] || !core.InModule(g) || len(g.Blocks) == 0 {
 				return
 			}
-			if c.phaseRoot(g) == root {
+			if up := c.soleCaller(g); up != nil && out[up] {
 				out[g] = true
 				add(g, d+1)
 			}
@@ -1164,4 +1164,53 @@ func (c *Ctx) soleCaller(fn *ssa.Function) *ssa.Function {
 		return nil
 	}
 	return cs[0].Caller
+}
+
+// climbUntil: fn, or the nearest function up its chain of sole callers (two levels) for which ok
+// holds; fn itself when none does.
+func (c *Ctx) climbUntil(fn *ssa.Function, ok func(root *ssa.Function) bool) *ssa.Function {
+	root := fn
+	for i := 0; i < 3; i++ {
+		if ok(root) {
+			return root
+		}
+		up := c.soleCaller(root)
+		if up == nil {
+			break
+		}
+		root = up
+	}
+	return fn
+}
+
+// regionHas: some instruction of the region of root satisfies pred.
+func (c *Ctx) regionHas(root *ssa.Function, pred func(ssa.Instruction) bool) bool {
+	found := false
+	c.regionInstrs(root, func(_ *ssa.Function, in ssa.Instruction) {
+		if !found && pred(in) {
+			found = true
+		}
+	})
+	return found
+}
+
+// withRegionUp runs f with the deep path searches allowed to continue, after a helper of the region
+// returns, at the helper's call sites inside the region.
+func (c *Ctx) withRegionUp(root *ssa.Function, f func()) {
+	region := c.regionOf(root)
+	saved := core.DeepUp
+	core.DeepUp = func(g *ssa.Function) []*ssa.Call {
+		if g == root || !region[g] {
+			return nil
+		}
+		var out []*ssa.Call
+		for _, cs := range c.callersOf(g) {
+			if call, ok := cs.Site.(*ssa.Call); ok && region[cs.Caller] && call.Call.StaticCallee() == g {
+				out = append(out, call)
+			}
+		}
+		return out
+	}
+	defer func() { core.DeepUp = saved }()
+	f()
 }
